@@ -118,6 +118,22 @@ def bounded(ctx, b):
     sets.append(("styles_with_a_region_key", CaptionSet({"en": CaptionList([
         Caption(0, 10 ** 6, [T("x")], style={"color": "yellow", "region": "top"}),
         Caption(10 ** 6, 2 * 10 ** 6, [T("y")], style={"region": "r9", "class": "k"})])}, styles={"k": {"color": "red"}})))
+    # several style references on one element, some of them without a definition: what is written refers to definitions only
+    multi = ('<tt xmlns="http://www.w3.org/ns/ttml" xmlns:tts="http://www.w3.org/ns/ttml#styling" xml:lang="en"><head><styling>'
+             '<style xml:id="base" tts:color="white"/><style xml:id="emph" tts:fontStyle="italic"/></styling></head><body><div>'
+             '<p begin="1s" end="2s" style="base missing">one <span style="emph missing">two</span> <span style="gone emph base">three</span></p>'
+             '<p begin="3s" end="4s" style="missing">four</p></div></body></tt>')
+    sets.append(("several_style_references", DFXPReader().read(multi)))
+    sets.append(("classes_through_the_api", CaptionSet({"en": CaptionList([
+        Caption(0, 10 ** 6, [ST(True, {"classes": ["k", "nope"], "class": "k"}), T("x"), ST(False, {"classes": ["k", "nope"], "class": "k"})],
+                style={"classes": ["nope", "k"], "class": "nope"})])}, styles={"k": {"color": "red"}})))
+    # a style node whose dictionary names a region itself (the key the legacy writer honours), with and without a layout
+    lr = Layout(origin=Point(Size(10, UnitEnum.PERCENT), Size(10, UnitEnum.PERCENT)))
+    sets.append(("style_nodes_with_a_region_key", CaptionSet({"en": CaptionList([
+        Caption(0, 10 ** 6, [ST(True, {"italics": True, "region": "bottom"}), T("x"), ST(False, {"italics": True, "region": "bottom"})], layout_info=lr),
+        Caption(10 ** 6, 2 * 10 ** 6, [ST(True, {"italics": True, "region": "r0"}, lr), T("y", lr), ST(False, {"italics": True, "region": "r0"}, lr)], layout_info=lr),
+        Caption(2 * 10 ** 6, 3 * 10 ** 6, [ST(True, {"bold": True, "region": "bottom"}, lr), T("z", lr), ST(False, {"bold": True, "region": "bottom"}, lr)])],
+        layout_info=lr)})))
     lv = Layout(alignment=Alignment(None, VA.CENTER))
     lh = Layout(alignment=Alignment(HA.CENTER, None))
     sets.append(("one_component_alignments", CaptionSet({"en": CaptionList([
